@@ -192,6 +192,32 @@ func (c *SimClock) NextDeadline() (time.Time, bool) {
 	return p[0].Deadline, true
 }
 
+// HasDue reports whether some live timer or context deadline is due (its
+// deadline is not after the current time) and its owner still exists, whether
+// or not it can be delivered right now. Worlds that want exact timer delivery
+// keep time still while this holds.
+func (c *SimClock) HasDue() bool {
+	c.mu.Lock()
+	p := c.pending()
+	now := *c.now
+	c.mu.Unlock()
+	for _, t := range p {
+		if t.Deadline.After(now) {
+			break
+		}
+		if t.wake {
+			continue
+		}
+		if t.Owner != "" {
+			if a := c.K.Actor(t.Owner); a == nil || a.Done() {
+				continue
+			}
+		}
+		return true
+	}
+	return false
+}
+
 // PendingCount returns the number of live timers.
 func (c *SimClock) PendingCount() int {
 	c.mu.Lock()
